@@ -64,6 +64,16 @@ def design(ctx, names, k1_open, f5_open):
                 ctx.violation('C06.%s(design)' % v['name'], rp)
                 return
         ctx.extra.setdefault('as_built_design_violations', {})[n] = [v['name'] for v in r.violations]
+    # a slow device: one operation's wait times out (it raises and abandons its stream, whose packets keep arriving); the others
+    # still get exactly their own packets and complete
+    for n in (['A', 'C'] if len(names) <= 4 else ['A', 'B', 'C', 'D']):
+        prog, rep = CFG[n]
+        for who in sorted(prog):
+            r = tour.host_run(prog, rep, K1b, F5b, invariants=('MonitorOK', 'Complete', 'NoCrossTalk', 'LockDiscipline', 'GaveUpOnly'), registry=REG, giveup=(who,))
+            ctx.add_tlc(r, 'AdbHost %s as-built, the wait of %s may time out' % (n, who))
+            for v in r.violations:
+                ctx.violation('C06.%s(design, with a timed-out operation)' % v['name'], dict(kind='design-counterexample', config=n, gives_up=who, steps=len(v['trace']), last_state=v['trace'][-1][:1500]))
+                return
     # non-vacuity: without the registry the dropping put() does get stuck (the pinned tree's design, finding K1)
     prog, rep = CFG['A']
     r = tour.host_run(prog, rep, True, False, invariants=INV, registry=False)
